@@ -9,6 +9,7 @@ import (
 
 	"pgregory.net/rapid"
 
+	"github.com/apache/skywalking-banyandb/banyand/internal/sidx"
 	"github.com/apache/skywalking-banyandb/pkg/fs"
 	"github.com/apache/skywalking-banyandb/verifkit"
 )
@@ -21,6 +22,22 @@ type tsnCase struct {
 	Ops []ttOp `json:"ops"` // write | flush | merge | snapshot
 }
 
+// tsnHookSIDX runs a callback right after the real secondary index linked its parts into a snapshot directory.
+type tsnHookSIDX struct {
+	sidx.SIDX
+	after func()
+}
+
+func (h *tsnHookSIDX) TakeFileSnapshot(dst string) error {
+	err := h.SIDX.TakeFileSnapshot(dst)
+	if h.after != nil {
+		f := h.after
+		h.after = nil
+		f()
+	}
+	return err
+}
+
 func runTraceSnapshot(x *verifkit.Ctx, c tsnCase) (snaps int, withMem, afterMerge bool, err error) {
 	dir, derr := os.MkdirTemp("", "verif-tsn-")
 	if derr != nil {
@@ -31,6 +48,12 @@ func runTraceSnapshot(x *verifkit.Ctx, c tsnCase) (snaps int, withMem, afterMerg
 	defer tb.close()
 	var batches [][]ttSpan
 	flushed, merges := 0, 0
+	midFlush := false
+	defer func() {
+		if midFlush && x != nil {
+			x.Label("flush landing inside a snapshot call")
+		}
+	}()
 	for i, op := range c.Ops {
 		switch op.Kind {
 		case "write":
@@ -55,18 +78,44 @@ func runTraceSnapshot(x *verifkit.Ctx, c tsnCase) (snaps int, withMem, afterMerg
 			}
 		case "snapshot":
 			dst := filepath.Join(dir, fmt.Sprintf("snap-%d", i))
+			before := flushed
+			if len(op.Spans) > 0 && len(batches) > 0 {
+				// a flush lands in the middle of the call: right after the secondary index was linked, a batch is written and flushed
+				tb.tst.Lock()
+				real, okSidx := tb.tst.sidxMap[ttSidx]
+				if okSidx {
+					tb.tst.sidxMap[ttSidx] = &tsnHookSIDX{SIDX: real, after: func() {
+						tb.tst.Lock()
+						tb.tst.sidxMap[ttSidx] = real
+						tb.tst.Unlock()
+						if werr := tb.write(op.Spans, len(batches)+1); werr == nil {
+							batches = append(batches, op.Spans)
+							if tb.flushAll() > 0 {
+								flushed = len(batches)
+							}
+							midFlush = true
+						}
+					}}
+				}
+				tb.tst.Unlock()
+			}
 			ok, serr := tb.tst.TakeFileSnapshot(dst)
+			tb.tst.Lock()
+			if h, isHook := tb.tst.sidxMap[ttSidx].(*tsnHookSIDX); isHook {
+				tb.tst.sidxMap[ttSidx] = h.SIDX
+			}
+			tb.tst.Unlock()
 			if serr != nil {
 				if len(batches) == 0 {
 					continue // no snapshot exists before the first write
 				}
 				return snaps, withMem, afterMerge, fmt.Errorf("op %d snapshot: %v", i, serr)
 			}
-			if !ok && flushed == 0 {
-				continue
+			if !ok && before == 0 {
+				continue // nothing was flushed when the request arrived
 			}
 			if !ok {
-				return snaps, withMem, afterMerge, fmt.Errorf("op %d snapshot: nothing reported although %d batches are flushed", i, flushed)
+				return snaps, withMem, afterMerge, fmt.Errorf("op %d snapshot: nothing reported although %d batches are flushed", i, before)
 			}
 			snaps++
 			if flushed < len(batches) {
@@ -82,7 +131,7 @@ func runTraceSnapshot(x *verifkit.Ctx, c tsnCase) (snaps int, withMem, afterMerg
 					manifests++
 				}
 			}
-			if flushed > 0 && manifests != 1 {
+			if (before > 0 && manifests != 1) || manifests > 1 {
 				return snaps, withMem, afterMerge, fmt.Errorf("op %d snapshot: the copy holds %d manifests", i, manifests)
 			}
 			rt := openTT(dst, nil)
@@ -102,6 +151,29 @@ func runTraceSnapshot(x *verifkit.Ctx, c tsnCase) (snaps int, withMem, afterMerg
 			if gerr != nil {
 				return snaps, withMem, afterMerge, fmt.Errorf("op %d snapshot: restored copy: %v", i, gerr)
 			}
+			if flushed != before {
+				// a flush completed during the call: the copy is the state before it or after it - spans and index of the same state
+				var firstErr string
+				matched := false
+				for _, j := range []int{before, flushed} {
+					want := ttExpected(batches[:j])
+					dc, di := ttDiff(got.core, want.core), ttSetDiff(got.index, want.index)
+					if dc == "" && di == "" {
+						matched = true
+						break
+					}
+					if firstErr == "" {
+						firstErr = fmt.Sprintf("against the %d batches flushed before the request: spans %q index %q", j, dc, di)
+					} else {
+						firstErr += fmt.Sprintf("; against the %d batches flushed when it returned: spans %q index %q", j, dc, di)
+					}
+				}
+				if !matched {
+					return snaps, withMem, afterMerge, fmt.Errorf("op %d snapshot with a flush landing during the call: the restored copy is neither the state before nor the state after that flush - %s", i, firstErr)
+				}
+				os.RemoveAll(dst)
+				continue
+			}
 			want := ttExpected(batches[:flushed])
 			if d := ttDiff(got.core, want.core); d != "" {
 				return snaps, withMem, afterMerge, fmt.Errorf("op %d snapshot: the restored copy's spans differ from the %d batches flushed before the request (%d acknowledged): %s", i, flushed, len(batches), d)
@@ -119,7 +191,7 @@ func TestVerifC19Trace(t *testing.T) {
 	verifkit.Run(t, verifkit.Spec[tsnCase]{
 		Property: "C19", Unit: "trace_snapshot", CrashReplay: true,
 		Rule: "a trace shard (core parts plus the ordered secondary index): 2..6 write batches over 6 traces with generated flushes, merges of arbitrary subsets of file " +
-			"parts and TakeFileSnapshot requests in between - in particular while memory parts are pending and right after merges; oracle: the copy holds one " +
+			"parts and TakeFileSnapshot requests in between - in particular while memory parts are pending, right after merges and, for a third of the requests, with a write + flush that the harness lands inside the call right after the secondary index was linked (then the copy is the state before or after that flush, spans and index of the same one); oracle: the copy holds one " +
 			"manifest and no part directory outside it, opens with the real start-up code and serves exactly the batches flushed before the request, spans and " +
 			"secondary-index entries alike (a prefix of the acknowledged batches, never a mixture); non-trivial = a snapshot while memory parts exist or after a merge",
 		Gen: func(t *rapid.T, _ *verifkit.KnownSet) tsnCase {
@@ -137,7 +209,14 @@ func TestVerifC19Trace(t *testing.T) {
 					case "merge":
 						c.Ops = append(c.Ops, ttOp{Kind: "merge", Pick: rapid.SliceOfN(rapid.IntRange(0, 5), 2, 4).Draw(t, "pick")})
 					case "snapshot":
-						c.Ops = append(c.Ops, ttOp{Kind: "snapshot"})
+						sop := ttOp{Kind: "snapshot"}
+						if rapid.IntRange(0, 2).Draw(t, "midflush") == 0 {
+							for i := rapid.IntRange(1, 3).Draw(t, "midspans"); i > 0; i-- {
+								id++
+								sop.Spans = append(sop.Spans, ttSpan{Trace: rapid.IntRange(0, 5).Draw(t, "trace"), ID: id, Dur: int64(rapid.IntRange(1, 50).Draw(t, "dur"))})
+							}
+						}
+						c.Ops = append(c.Ops, sop)
 					default:
 						c.Ops = append(c.Ops, ttOp{Kind: "flush"})
 					}
